@@ -796,8 +796,9 @@ class Glob(Generic[AnyStr]):
             return True
 
         unique = False
-        if (path.lower() if not self.case_sensitive else path) not in self.seen:
-            self.seen.add(path)
+        key = path.lower() if not self.case_sensitive else path
+        if key not in self.seen:
+            self.seen.add(key)
             unique = True
         return unique
 
